@@ -93,11 +93,15 @@ let model_of = function
   | "C14" -> c14_model
   | "C11" -> c11_model
   | "C08" -> c08_model
+  | "C04" | "C05" | "C12" | "C09" | "C10" -> Rp.model
   | p -> failwith ("no model for " ^ p)
 let judge_of = function
   | "C14" -> judge_eq c14_spec
   | "C11" -> judge_eq c11_spec
   | "C08" -> c08_judge
+  | "C12" -> Rp.c12_judge
+  | "C04" -> Rp.c04_judge
+  | "C05" -> Rp.c05_judge
   | p -> failwith ("no judge for " ^ p)
 
 let read_lines ic = let rec go acc = match input_line ic with l -> go (l :: acc) | exception End_of_file -> List.rev acc in go []
@@ -107,12 +111,12 @@ let () =
   | [_; "model"; p] ->
     let f = model_of p in
     List.iter (fun l -> if String.trim l <> "" then
-      print_endline (try to_string (f (parse l)) with Failure m -> "(error " ^ String.map (fun c -> if c = ' ' then '_' else c) m ^ ")")) (read_lines stdin)
+      print_endline (try to_string (f (parse l)) with Failure m -> "(error " ^ String.map (fun c -> if c = ' ' then '_' else c) m ^ ")" | e -> "(error " ^ String.map (fun c -> if c = ' ' then '_' else c) (Printexc.to_string e) ^ ")")) (read_lines stdin)
   | [_; "judge"; p; cf; imf] ->
     let f = judge_of p in
     let cs = read_lines (open_in cf) and is = read_lines (open_in imf) in
     if List.length cs <> List.length is then (prerr_endline "judge: length mismatch"; exit 2);
-    List.iter2 (fun c i -> print_endline (try f (parse c) (parse i) with Failure m -> "bad judge-error:" ^ m)) cs is
+    List.iter2 (fun c i -> print_endline (try f (parse c) (parse i) with Failure m -> "bad judge-error:" ^ m | e -> "bad judge-error:" ^ Printexc.to_string e)) cs is
   | [_; "consts"] ->
     let pr x = print_endline (to_string x) in
     pr (L [A "abort-index"; sint (int_of_z abort_index)]);
